@@ -1,5 +1,7 @@
 #!/bin/bash
 # usage: tools/try_seed.sh <patch.diff> <prop> [<prop>...]   -- applies a seeded change to /repo, runs the quick checks, reverts.
+# (not while a background run is active; and rebuild - ./check does - before using sim/target/debug/axsim
+# directly afterwards: the binary left behind still contains the change)
 set -u
 PATCH=$1; shift
 cd /repo || exit 2
